@@ -126,6 +126,7 @@ def build_scenario(rng, flav, ctx, *, max_launch_dbm=5.0, n_jobs=None, span_kw=N
     sk.setdefault('allow_eol', True)
     if flav in ('mesh', 'mesh_pd'):
         tk.setdefault('per_degree', flav == 'mesh_pd')
+        tk.setdefault('dispersion_variants', rng.random() < 0.4)
         tk.setdefault('per_freq_loss', rng.random() < 0.3)
         tk.setdefault('lumped', rng.random() < 0.3)
         hook = None
